@@ -615,7 +615,7 @@ package server
 //@   loop#1 invariant sectionInv(self, lockManager) && lockManager.freeLocks != nil
 //@   at call wakeUpWaitLock assert C19.event.wait-until-set,C04.wake.wait-when-unlocked: !(lockManager.locked == 0 && waitLock.command.TimeoutFlag&0x0200 != 0)
 //@   at call wakeUpWaitLock assert C04.wake.admit,C01.wake.admit: admissible(lockManager, waitLock) || unlimitedClass(lockManager, waitLock)
-//@   at call PriorityMutex.Unlock assert C04.wake.stop: waitLock == nil || (!admissible(lockManager, waitLock) || waitLock.command.TimeoutFlag&0x4000 != 0)
+//@   at call PriorityMutex.Unlock assert C04.wake.stop: waitLock == nil || (!admissible(lockManager, waitLock) || waitLock.command.TimeoutFlag&0x4000 != 0 || (lockManager.locked == 0 && waitLock.command.TimeoutFlag&0x0200 != 0))
 //@   modifies all
 
 //@ func (*LockDB).wakeUpWaitLock
